@@ -56,7 +56,8 @@ def check(pc, goal, timeout_ms, dump=None, second=False):
         return out
     if r == z3.sat:
         out['status'] = 'refuted'
-        out['model'] = _small_model(s, fs) or s.model()
+        m0 = s.model()      # taken now: after the push / pop of the search for a smaller model the solver no longer holds one
+        out['model'] = _small_model(s, fs) or m0
         return out
     # neither proved nor refuted: look for a counter-model with small sizes (adding constraints only -- a model found here is a model of the VC;
     # MBQI terminates on the small instances where it diverges on the unbounded one)
@@ -144,7 +145,7 @@ def _small_size_model(fs):
     sorts = _unint_sorts(fs)
     if not ints and not sorts:
         return None
-    tries = [((0, 1), None), ((-1, 2), None)] if ints else []
+    tries = [((0, 1), None), ((-1, 2), None), ((0, 300), None)] if ints else []
     if sorts:
         # one element per uninterpreted sort first: MBQI finishes on it where it diverges with two
         tries = [((0, 1), 1), ((0, 2), 1)] + tries + [((0, 1), 2), ((-1, 2), 3)]
